@@ -109,10 +109,13 @@ def same_value(a: str, b: str) -> bool:
     return x is not None and y is not None and x == y
 
 
-def mk_array(tokens, dtype):
+def mk_array(tokens, dtype, none_null=False):
+    """`none_null`: nulls of an object column are `None` (the usual "nothing yet" of such a column) instead of NaN"""
     import numpy as np
     import pandas as pd
     vals = [untok(t) for t in tokens]
+    if dtype == "obj" and none_null:
+        return pd.Series(vals, dtype=object)
     if dtype == "time":
         return pd.Series(np.array([np.datetime64("NaT") if v is None else np.datetime64(v.value, "ns") for v in vals],
                                   dtype="datetime64[ns]"))
@@ -125,15 +128,47 @@ def mk_array(tokens, dtype):
     return pd.Series(vals, dtype=DT[dtype])
 
 
-def mk_index(rows, kind="int64"):
-    """the index kinds a component may hand over: an int64 Index, a RangeIndex (when the labels are consecutive),
-    an int32 Index, a default (object) empty Index"""
+def progression(rows):
+    """the step of the arithmetic progression the labels form (>= 2 labels, constant non-zero step), else None"""
+    rows = list(rows)
+    if len(rows) < 2:
+        return None
+    d = rows[1] - rows[0]
+    if d == 0 or any(b - a != d for a, b in zip(rows, rows[1:])):
+        return None
+    return d
+
+
+def range_spec(rows, kind="range"):
+    """(start, stop, step) of the RangeIndex OBJECT that stands for the labels, or None when they are no arithmetic
+    progression. `range`: the object slicing produces (`index[::-1]`, `index[:k][::-1]`, `index[a:b:c]`: stop = last + step);
+    `range-tight`: the nearest stop (last + sign(step)). A descending range that reaches simulant 0 has a NEGATIVE stop
+    either way; one label is `RangeIndex(r, r + 1)` / the descending `RangeIndex(r, r - 1, -1)`; no label is
+    `RangeIndex(0)` / the descending `RangeIndex(0, 0, -1)`."""
+    rows = list(rows)
+    tight = kind == "range-tight"
+    if not rows:
+        return (0, 0, -1) if tight else (0, 0, 1)
+    if len(rows) == 1:
+        return (rows[0], rows[0] - 1, -1) if tight else (rows[0], rows[0] + 1, 1)
+    d = progression(rows)
+    if d is None:
+        return None
+    return (rows[0], rows[-1] + ((1 if d > 0 else -1) if tight else d), d)
+
+
+def mk_index(rows, kind="int64", rspec=None):
+    """the index kinds a component may hand over: an int64 Index, a RangeIndex OBJECT (kinds `range` / `range-tight`,
+    whenever the labels form an arithmetic progression - ascending, strided, descending, one label, none; `rspec` =
+    explicit (start, stop, step) that must denote exactly `rows`), an int32 Index, a default (object) empty Index"""
     import pandas as pd
     rows = list(rows)
-    if kind == "range" and rows and rows == list(range(rows[0], rows[0] + len(rows))):
-        return pd.RangeIndex(rows[0], rows[0] + len(rows))
-    if kind == "range" and not rows:
-        return pd.RangeIndex(0)
+    if kind in ("range", "range-tight"):
+        spec = tuple(rspec) if rspec is not None and len(rspec) == 3 and rspec[2] != 0 and list(range(*rspec)) == rows else range_spec(rows, kind)
+        if spec is not None:
+            idx = pd.RangeIndex(*spec)
+            assert isinstance(idx, pd.RangeIndex) and idx.tolist() == rows, (spec, rows)
+            return idx
     if kind == "int32":
         return pd.Index(rows, dtype="int32")
     if kind == "obj-empty" and not rows:
@@ -141,9 +176,36 @@ def mk_index(rows, kind="int64"):
     return pd.Index(rows, dtype="int64")
 
 
-def mk_series(tokens, dtype, rows, name=None, ikind="int64"):
-    s = mk_array(tokens, dtype)
-    s.index = mk_index(rows, ikind)
+def range_of(index):
+    """[start, stop, step] when the object handed over is a RangeIndex, else None"""
+    import pandas as pd
+    return [int(index.start), int(index.stop), int(index.step)] if isinstance(index, pd.RangeIndex) else None
+
+
+def range_shape(r, n=None) -> str:
+    """distribution tag of a range request"""
+    start, stop, step = r
+    labels = range(start, stop, step)
+    if len(labels) == 0:
+        return "empty" + ("-descending" if step < 0 else "")
+    if len(labels) == 1:
+        return "single" + ("-descending" if step < 0 else "") + ("-negative-stop" if stop < 0 else "")
+    if step > 0:
+        return "ascending" + ("" if step == 1 else "-strided")
+    return ("descending" + ("" if step == -1 else "-strided") + ("-to-0" if labels[-1] == 0 else "-above-0")
+            + ("-everybody" if n is not None and step == -1 and start == n - 1 and labels[-1] == 0 else ""))
+
+
+def rows_tok(rows, rng=None) -> str:
+    """driver token of a request / update index: the labels, or the range OBJECT that was handed over"""
+    if rng is not None:
+        return f"r{rng[0]}:{rng[1]}:{rng[2]}"
+    return ",".join(map(str, rows)) or "-"
+
+
+def mk_series(tokens, dtype, rows, name=None, ikind="int64", rspec=None, none_null=False):
+    s = mk_array(tokens, dtype, none_null)
+    s.index = mk_index(rows, ikind, rspec)
     s.name = name
     return s
 
@@ -207,7 +269,7 @@ def table_diff(a: dict, b: dict, dtypes=True, exact=True, order=False) -> str | 
     if [c[0] for c in ca] != [c[0] for c in cb]:
         return f"columns {[c[0] for c in ca]} vs {[c[0] for c in cb]}"
     for x, y in zip(ca, cb):
-        if dtypes and x[1] != y[1]:
+        if dtypes and x[1] != y[1] and {x[1], y[1]} != {"str", "obj"}:     # (an object column reads as `str` when it holds strings, as `obj` when all its cells are null)
             return f"dtype of {x[0]}: {x[1]} vs {y[1]}"
         xs, ys = [norm_tok(t) for t in x[2]], [norm_tok(t) for t in y[2]]
         if len(xs) != len(ys) or not all((p == q) if exact else same_value(p, q) for p, q in zip(xs, ys)):
@@ -304,14 +366,14 @@ def build_update(spec):
         first = next(iter(cols.values()), [])
         return {"dict": cols, "list": list(first), "tuple": tuple(first), "ndarray": np.array(first, dtype=object),
                 "none": None, "scalar": 3}[spec.get("xkind", "dict")]
-    rows, ik = spec["rows"], spec.get("ikind", "int64")
+    rows, ik, rs, nn = spec["rows"], spec.get("ikind", "int64"), spec.get("rspec"), spec.get("nullobj") == "none"
     if spec["form"] == "S":
         name, dt, toks = spec["cols"][0]
-        return mk_series(toks, dt, rows, name, ik)
-    idx = mk_index(rows, ik)
+        return mk_series(toks, dt, rows, name, ik, rs, nn)
+    idx = mk_index(rows, ik, rs)
     data = {}
     for name, dt, toks in spec["cols"]:
-        data[name] = mk_series(toks, dt, rows, name, ik)
+        data[name] = mk_series(toks, dt, rows, name, ik, rs, nn)
     return pd.DataFrame(data, index=idx) if data else pd.DataFrame(index=idx)
 
 
@@ -319,7 +381,7 @@ def upd_line(spec, uncaught=False) -> str:
     head = ("updx " if uncaught else "upd ") + str(spec["view"])
     if spec["form"] == "X":
         return head + " X"
-    rows = ",".join(map(str, spec["rows"])) or "-"
+    rows = rows_tok(spec["rows"], spec.get("range"))
     if spec["form"] == "S":
         name, dt, toks = spec["cols"][0]
         return f"{head} S {name if name is not None else '~'} {dt} {rows} {','.join(toks) or '-'}"
@@ -399,7 +461,7 @@ def run_script(case: dict) -> dict:
             log.append({"t": "skip", "why": "view does not exist (shrunk case)"})
             return
         if kind == "upd":
-            ent = {"t": "upd", "spec": {k: action[k] for k in ("view", "form", "rows", "cols")},
+            ent = {"t": "upd", "spec": {k: action[k] for k in ("view", "form", "rows", "cols")}, "nulls": action.get("nulls"),
                    "caught": bool(action.get("catch", True)), "comp": comp,
                    "forms": [action.get("ikind", "int64"), action.get("xkind", "dict") if action["form"] == "X" else "-"]}
             log.append(ent)
@@ -407,6 +469,8 @@ def run_script(case: dict) -> dict:
                 u = build_update(action)
                 if hasattr(u, "index") and hasattr(u.index, "dtype"):
                     ent["forms"][0] = f"{type(u.index).__name__}:{u.index.dtype}"
+                    if range_of(u.index) is not None and all(r >= 0 for r in action["rows"]):
+                        ent["spec"]["range"] = range_of(u.index)       # the update's index is a range OBJECT
                 views[action["view"]].update(u)
                 ent["out"] = "ok"
                 if action.get("mutate"):
@@ -418,12 +482,27 @@ def run_script(case: dict) -> dict:
                     raise
             ent["table"], ent["flags"] = dump(), flags()
         elif kind == "get":
-            if action["idx"] == "event":                           # the very index object the framework handed to the listener
-                index = event.index if event is not None else mk_index([])
+            derived = ""
+            if action["idx"] == "event" or isinstance(action["idx"], dict):
+                # an index OBJECT of the framework - the one handed to the listener (`event.index`), the index of the whole
+                # population / of the tracked population - possibly sliced the way components do (`index[::-1]`, `index[:k][::-1]`)
+                src = "event" if action["idx"] == "event" else action["idx"].get("from", "event")
+                if src == "event":
+                    index = event.index if event is not None else mk_index([])
+                elif state["sim"]._population._population is None:
+                    index = mk_index([])
+                else:
+                    index = state["sim"].get_population(src != "pop-tracked").index
+                derived = src + "-index"
+                for a, b, c in ([] if action["idx"] == "event" else action["idx"].get("slices", [])):
+                    index = index[slice(a, b, c)]
+                    derived += f"[{'' if a is None else a}:{'' if b is None else b}:{'' if c is None else c}]"
+                derived += ":"
             else:
-                index = mk_index(action["idx"], action.get("ikind", "int64"))
+                index = mk_index(action["idx"], action.get("ikind", "int64"), action.get("rspec"))
             ent = {"t": "get", "view": action["view"], "idx": [int(x) for x in index.tolist()], "q": action["q"], "comp": comp,
-                   "forms": [("event-index:" if action["idx"] == "event" else "") + f"{type(index).__name__}:{index.dtype}",
+                   "range": range_of(index), "derived": derived[:-1] or None,
+                   "forms": [derived + f"{type(index).__name__}:{index.dtype}",
                              "no-query-arg" if action["q"] == ["T"] and action.get("noq") else "query-arg"]}
             log.append(ent)
             try:
@@ -712,7 +791,7 @@ def script_lines(case: dict, obs: dict) -> tuple[list[str], list[tuple[int, str]
             lines.append("dump")
             expect.append((len(lines) - 1, i, "table-during" if open_creations else "table"))
         elif t == "get":
-            lines.append(f"get {e['view']} {','.join(map(str, e['idx'])) or '-'} {pred_rpn(e['q'])}")
+            lines.append(f"get {e['view']} {rows_tok(e['idx'], e.get('range'))} {pred_rpn(e['q'])}")
             expect.append((len(lines) - 1, i, "frame"))
         elif t == "view":
             if e["out"] == "ok":
@@ -1112,7 +1191,7 @@ def read_failures(case, obs) -> list:
             continue
         for name, dt, vals in got["cols"]:
             tc = col_of(t, name)
-            if dt != tc[1]:
+            if dt != tc[1] and {dt, tc[1]} != {"str", "obj"}:
                 fail("get-wrong-dtype", f"{desc}: column {name} is {dt}, the table has {tc[1]}")
             for r, v in zip(got["rows"], vals):
                 if norm_tok(v) != norm_tok(cell(t, r, name)):
@@ -1143,6 +1222,13 @@ def form_tags(case, obs) -> list:
             sp = e["spec"]
             f = e.get("forms", ["int64", "-"])
             t.append("upd-index:" + f[0])
+            if sp.get("range"):
+                t.append("upd-range:" + range_shape(sp["range"], len(prev["rows"]) if prev else None))
+            for c in sp["cols"]:
+                if c[2] and c[1] not in ("int", "bool", "i32"):
+                    k = sum(1 for v in c[2] if v == "n")
+                    if k:
+                        t.append(f"upd-nulls:{'all' if k == len(c[2]) else 'one' if k == 1 else 'some'}:{c[1]}:{when}")
             if sp["form"] == "X":
                 t.append("upd-object:" + f[1])
             for c in sp["cols"]:
@@ -1158,6 +1244,10 @@ def form_tags(case, obs) -> list:
         elif e["t"] == "get":
             f = e.get("forms", ["int64", "query-arg"])
             t += ["get-index:" + f[0], "get-form:" + f[1], "get-when:" + when]
+            if e.get("range"):
+                t.append("get-range:" + range_shape(e["range"], len(prev["rows"]) if prev else None))
+                if prev and any(cell(prev, r, "tracked") == "b0" for r in e["idx"] if r in prev["rows"]):
+                    t.append("get-range-covers-untracked")
             if e.get("comp") and owner.get(e["view"]) not in (None, e["comp"]):
                 t.append("get-through-another-components-view")
         elif e["t"] == "view":
@@ -1208,7 +1298,18 @@ def walk(obs):
             prev = e["table"]
 
 
-def value_tokens(dtype, rng, n, allow_null=True):
+NULLABLE = ("flt", "str", "time", "cat", "obj", "f32")
+
+
+def value_tokens(dtype, rng, n, allow_null=True, nulls=None):
+    """`nulls` (lesson 15, only for dtypes that can hold a null): "all" = null for everybody, "one" = exactly one null,
+    "some" = at least one null and one value (when n allows); None = the usual sprinkling"""
+    if nulls and dtype in NULLABLE and n:
+        out = value_tokens(dtype, rng, n, allow_null=False)
+        k = n if nulls == "all" else 1 if nulls == "one" or n < 3 else rng.randint(1, n - 1)
+        for i in rng.sample(range(n), k):
+            out[i] = "n"
+        return out
     out = []
     for _ in range(n):
         if dtype == "int":
